@@ -233,6 +233,8 @@ func checkJSONRootValidated(c *core.Ctx, fn *core.FuncRef) {
 }
 
 func runC06(c *core.Ctx) {
+	c.Rule("MAYBE", "maybe-fitting arguments are asserted at run time; type-function overloads are not matched by arity")
+	checkMaybeLoops(c, "MAYBE")
 	p := c.Prog
 	c.Rule("ERR1", "error result of a call is not discarded or dead")
 	c.Rule("ERR3", "no return of a known-nil error variable inside `if X != nil`")
